@@ -196,7 +196,13 @@ fn honest_proof(line: &str, axisdata: Option<&[Vec<u8>]>) -> Option<bool> {
         if s.data.len() != SHARE + NS_SIZE || s.data[NS_SIZE..] != axisdata[i][..] {
             return Some(false);
         }
-        let ns_expected: Vec<u8> = if index < k && i < k { axisdata[i][..NS_SIZE].to_vec() } else { Namespace::PARITY_SHARE.as_bytes().to_vec() };
+        // the namespace the leaf was committed under: by the protocol's rule, or (S9) as the line's `axisns=` says
+        let committed: Option<Vec<Vec<u8>>> = arg(line, "axisns").and_then(unhxl);
+        let ns_expected: Vec<u8> = match &committed {
+            Some(v) if v.len() == w => v[i].clone(),
+            Some(_) => return Some(false),
+            None => if index < k && i < k { axisdata[i][..NS_SIZE].to_vec() } else { Namespace::PARITY_SHARE.as_bytes().to_vec() },
+        };
         if s.data[..NS_SIZE] != ns_expected[..] {
             return Some(false);
         }
@@ -418,6 +424,9 @@ impl C07 {
 struct Grid {
     w: usize,
     shares: Vec<Vec<u8>>,
+    /// S9: the block producer committed the first-quadrant leaves under THIS namespace although the shares' own first
+    /// 29 bytes are something else (not even a valid namespace): the trees verify, the rule of the protocol is broken
+    forged: Option<Namespace>,
 }
 
 impl Grid {
@@ -437,14 +446,48 @@ impl Grid {
                 }
             })
             .collect();
-        Grid { w, shares }
+        Grid { w, shares, forged: None }
+    }
+    /// first-quadrant shares that start with 29 bytes that are NOT a namespace (unsupported version / version 0 with a
+    /// non-zero prefix), committed under a valid namespace; row `cw` (if any) is a Reed-Solomon codeword of the real codec
+    fn forged(rng: &mut Rng, w: usize, cw: Option<usize>) -> Grid {
+        let mut g = Grid::random(rng, w);
+        let k = w / 2;
+        g.forged = Some(d_common::user_ns(rng));
+        for r in 0..k {
+            for c in 0..k {
+                let bad: Vec<u8> = if rng.bool() {
+                    let mut v = vec![rng.range(1, 254) as u8];
+                    v.extend(rng.bytes(NS_SIZE - 1));
+                    v
+                } else {
+                    let mut v = vec![0u8, 0xAA];
+                    v.extend(rng.bytes(NS_SIZE - 2));
+                    v
+                };
+                g.shares[r * w + c][..NS_SIZE].copy_from_slice(&bad);
+            }
+        }
+        if let Some(r) = cw {
+            let row: Vec<Vec<u8>> = (0..w).map(|c| g.at(r, c).clone()).collect();
+            if let Some(par) = encode_first_half(&row) {
+                for (j, p) in par.into_iter().enumerate() {
+                    g.shares[r * w + k + j] = p;
+                }
+            }
+        }
+        g
     }
     fn at(&self, r: usize, c: usize) -> &Vec<u8> {
         &self.shares[r * self.w + c]
     }
     fn ns_at(&self, r: usize, c: usize) -> Namespace {
         let k = self.w / 2;
-        if r < k && c < k { Namespace::from_raw(&self.at(r, c)[..NS_SIZE]).unwrap() } else { Namespace::PARITY_SHARE }
+        if r < k && c < k {
+            self.forged.unwrap_or_else(|| Namespace::from_raw(&self.at(r, c)[..NS_SIZE]).unwrap())
+        } else {
+            Namespace::PARITY_SHARE
+        }
     }
     fn pos(axis: AxisType, aidx: usize, i: usize) -> (usize, usize) {
         match axis {
@@ -493,6 +536,12 @@ impl Grid {
             axis as i32,
             hxl(&self.axis(axis, index)),
         );
+        if self.forged.is_some() {
+            // ground truth: the namespaces the axis leaves were COMMITTED under
+            let nss: Vec<Vec<u8>> =
+                (0..self.w).map(|i| { let (r, c) = Self::pos(axis, index, i); self.ns_at(r, c).as_bytes().to_vec() }).collect();
+            l.push_str(&format!(" axisns={}", hxl(&nss)));
+        }
         for s in shares {
             l.push(' ');
             l.push_str(&share_word(s));
@@ -502,6 +551,45 @@ impl Grid {
 }
 
 impl C07 {
+    /// S9 (byzantine.rs:191): the original data reconstructed from PROVEN shares does not carry a valid namespace: the
+    /// first-quadrant leaves were committed under a valid namespace that is not the shares' own first 29 bytes (which are
+    /// no namespace at all).  Proofs verify, the codec reconstructs and re-encodes, `Namespace::from_raw` fails on leaf 0:
+    /// "befp is legit".  Such an axis is not "a codeword consistent with its root" even when it is a codeword (`cw`).
+    fn gen_forged_ns(&mut self, rng: &mut Rng, w: usize, out: &mut Emitter) {
+        let k = w / 2;
+        for codeword in [false, true] {
+            let r = rng.usize(0, k - 1);
+            let g = Grid::forged(rng, w, codeword.then_some(r));
+            let dah = g.dah();
+            let base = if codeword { "forged-leaf-namespace/codeword-row" } else { "forged-leaf-namespace/random-row" };
+            // the upper row (original data in its first half), a left column (same), and a lower row (parity leaves only:
+            // the forged quadrant is not on it, the usual verdicts apply)
+            for (axis, aidx, tag) in [
+                (AxisType::Row, r, "upper-row"),
+                (AxisType::Col, rng.usize(0, k - 1), "left-column"),
+                (AxisType::Row, k + rng.usize(0, k - 1), "lower-row"),
+            ] {
+                let other = if axis == AxisType::Row { AxisType::Col } else { AxisType::Row };
+                let same: Vec<RawBefpShare> = (0..w).map(|i| g.share(axis, aidx, i, axis)).collect();
+                let orth: Vec<RawBefpShare> = (0..w).map(|i| g.share(axis, aidx, i, other)).collect();
+                let keep = |all: &[RawBefpShare], mask: &[bool]| -> Vec<RawBefpShare> {
+                    all.iter().zip(mask.iter()).map(|(s, m)| if *m { s.clone() } else { absent() }).collect()
+                };
+                let t = |x: &str| format!("{base}/{tag}/{x}");
+                out.op(g.line(self.opname, &dah, aidx, axis, &same), &t("all-same-axis"), true);
+                out.op(g.line(self.opname, &dah, aidx, axis, &orth), &t("all-orthogonal-axis"), true);
+                let par_half: Vec<bool> = (0..w).map(|i| i >= k).collect();
+                out.op(g.line(self.opname, &dah, aidx, axis, &keep(&same, &par_half)), &t("parity-half"), true);
+                out.op(g.line(self.opname, &dah, aidx, axis, &keep(&orth, &random_subset(rng, w, k))), &t("half-random"), true);
+                // the shares claim their OWN (invalid) first bytes as namespace: not decodable as a proof at all
+                let mut v = same.clone();
+                let own = g.at(Grid::pos(axis, aidx, 0).0, Grid::pos(axis, aidx, 0).1)[..NS_SIZE].to_vec();
+                v[0].data[..NS_SIZE].copy_from_slice(&own);
+                out.op(g.line(self.opname, &dah, aidx, axis, &v), &t("claims-own-invalid-namespace"), true);
+            }
+        }
+    }
+
     /// S9 (byzantine.rs:164): a DAH of ODD width passes `ExtendedHeader::validate` (`dah.validate_basic` only bounds the
     /// width; C01 tag `ok/dah-odd-width`).  With `ods_width = w / 2` the axis has more parity than data shards, so
     /// `leopard_codec::reconstruct` refuses although enough shares are proven: "befp is legit", `Ok(())`.  No axis of
@@ -585,7 +673,9 @@ impl Prop for C07 {
          height, index, axis flag, share count.  Every line carries the ground truth about the committed axis, the real codec's parity \
          of its first half, and what the real reconstruct/encode return on the rebuilt axis.  S9: hand-built squares of ODD width 3, 5(, 7, 9) \
          (more parity than data shards: the codec refuses to reconstruct although enough shares are proven; honest all / floor-half / \
-         ceil-half, too few, swapped, substituted) and an honest proof against a DAH that lost / gained a row or column root.  \
+         ceil-half, too few, swapped, substituted), an honest proof against a DAH that lost / gained a row or column root, and squares \
+         whose first-quadrant leaves were committed under a valid namespace that is not the shares' own (invalid) first 29 bytes \
+         (`axisns=`; random row and codeword row).  \
          Non-trivial = every op; distinct = \
          distinct (op, result) lines."
     }
@@ -602,6 +692,9 @@ impl Prop for C07 {
             self.gen_odd(rng, w, out);
         }
         self.gen_rows_ne_cols(rng, 4, out);
+        for &w in if tier == Tier::Thorough { &[2usize, 4, 8, 16][..] } else { &[4usize, 8][..] } {
+            self.gen_forged_ns(rng, w, out);
+        }
     }
     fn run(&mut self, line: &str) -> String {
         match opname(line) {
